@@ -19,6 +19,14 @@ CHECKS = {
             "code through SetBits/decoders of the public API.",
             "TLA+ spec of Z/L; TLC trace validation of recorded API calls at real scale + TLC exhaustive toy model of ScMinimal",
             "5/C05"),
+    "C17": ("model_checking",
+            "TLC checks the recoders (NonAdjacentForm, ToRadix16, ToRadix2w transcribed with their word-window extraction) "
+            "for every scalar of two toy word layouts: value reconstruction and digit bounds; the recorded digit arrays of "
+            "the real API on the carry-chain/word-seam boundary family and seeded random 255-bit scalars must satisfy the "
+            "same postcondition module (Recoding.tla) with exact BigNat reconstruction.",
+            "Trusts TLC/SANY, CommunityModules overrides, BigNat. Real scale is exhaustive only over the boundary families.",
+            "TLA+ postconditions checked by TLC on recorded digit arrays + exhaustive toy model of the recoding algorithms",
+            "5/C17"),
 }
 
 NOT_YET = "check not built yet in this round (planned, see DESIGN.md section 11); not claimed until its machinery exists"
